@@ -4,6 +4,7 @@
 import AuthProofs.StateInventory
 import AuthProofs.Ladder
 import AuthProofs.CodeEquivOidc
+import AuthProofs.CodeEquivInternal
 import AuthProofs.StrLemmas
 import AuthModel.Generated.Facts
 import AuthModel.Config
@@ -101,6 +102,13 @@ example : Code.generateSetCookieHeader {} (B "n") (B "v") 0 = .ok (B "n=v; HttpO
 /-- NO HIDDEN STATE: the model treats a check as a function of (configuration, request, store answers, clock, IdP and key-source answers, entropy); that is a faithful reading of the code only if nothing else survives from one check to the next. Regenerated on every run: every package-level variable and struct field of internal/server, internal/authz, internal/http, internal/oidc is the classified expectation, and handlers, filter, HTTP helpers and the Redis store own no mutable state (no verdict cache, handler cache, object pool, single-flight group or per-process copy of session data). -/
 theorem no_hidden_state : CheckPathInventory := check_path_inventory
 
+/-- On the translated code: a prefix the loader's `isCookieNameToken` accepts gives a cookie name that is a token
+    (`cookie_name_is_token`), so nothing in the prefix can end the name or inject an attribute into the Set-Cookie. -/
+theorem code_accepted_prefix_is_token (env : Go.Env) (cfg : Cfg)
+    (h : Code.isCookieNameToken env cfg.cookiePrefix = .ok true) : Config.isCookieNameToken (cookieName cfg) = true := by
+  rw [code_isCookieNameToken] at h
+  exact cookie_name_is_token cfg (by simpa using h)
+
 end AuthProps.C05
 
 #print axioms AuthProps.C05.redirect_renews
@@ -115,3 +123,4 @@ end AuthProps.C05
 #print axioms AuthProps.C05.code_set_cookie_shape
 #print axioms AuthProps.C05.code_session_id_from_cookie
 #print axioms AuthProps.C05.no_hidden_state
+#print axioms AuthProps.C05.code_accepted_prefix_is_token
